@@ -55,7 +55,23 @@ def runPred (c : Case) : Res :=
         stats := "pred.insphere.degenerate" :: stats
         for n in ["insphere_fast", "insphere_std"] do
           if !obErr n then bad := s!"{n}={c.ob1 n} expected err (degenerate simplex)" :: bad
-      | none => stats := "pred.insphere.undecided" :: stats
+      | none =>
+        -- exact zero whose MEASURED evaluation noise (the public determinant of the documented
+        -- in-sphere matrix: its value is the rounding error itself when the exact determinant is 0)
+        -- is at most 1/100 of the documented tolerance: "the rounding bound of the evaluation lies
+        -- below the tolerance", so every formulation built on that matrix must answer BOUNDARY
+        let iRowsQ : List (List Q) := (s ++ [q]).map (fun p => p.map Q.ofDy ++ [dySqNorm p, Q.ofInt 1])
+        let iTol := adaptiveTol iRowsQ true
+        let noise? := (parseF64 (c.ob1 "ins_noise")).bind F64.dy?
+        match noise?, e.orient with
+        | some nz, some o =>
+          if e.exactIn == 0 && o != 0 && Q.le (Q.abs (Q.ofDy nz) * Q.ofInt 100) iTol then
+            decided := decided + 1
+            stats := "pred.insphere.zero_by_measured_noise" :: stats
+            for n in ["insphere_fast", "insphere_std", "insphere_robust"] do
+              if obI n != some 0 then bad := s!"{n}={c.ob1 n} expected 0 (exact determinant 0, measured rounding noise {qShow (Q.ofDy nz)} against a tolerance of {qShow iTol})" :: bad
+          else stats := "pred.insphere.undecided" :: stats
+        | _, _ => stats := "pred.insphere.undecided" :: stats
       match e.lifted with
       | some i =>
         stats := "pred.lifted.decided" :: stats
